@@ -257,6 +257,16 @@ class C06Monitor(Monitor):
             if p["active"] and v["active"] and awake:
                 if i in self.lsc_true:
                     x.violate(f"C06/lsc-true-still-active:{typ}", f"local stop condition returned True for {typ} {i} but it is still active")
+                specs = x.desc.get("lsc")
+                if specs and specs[v["level"]] == "allchildren" and i in self.lsc_seen:
+                    # 'holds at the end of its metaepoch' for a condition that reads the children: the children's metaepoch is over as
+                    # well by then (demes are stepped deepest level first), so the verdict is the one of the boundary state
+                    kids = [c.id for c in d.children if c.id in prev]
+                    if kids and all(not cur[c]["active"] for c in kids):
+                        x.violate("C06/all-children-stopped-still-active", f"{typ} {i} ran this metaepoch, every child it had ({kids}) is stopped at the end of the metaepoch, "
+                                  "AllChildrenStopped is its local condition, and it is still active")
+                    else:
+                        x.flag("AllChildrenStopped parent judged at the boundary")
                 if typ == "LocalDeme":
                     x.violate("C06/local-not-one-shot", f"LocalDeme {i} still active after its search")
                 if typ == "CMADeme":
@@ -773,6 +783,10 @@ class C20Monitor(Monitor):
         m = re.search(r"^Number of evaluations: (\d+)", head, re.M)
         if not m or int(m.group(1)) != tree.n_evaluations:
             x.violate("C20/summary-total-evaluations", f"summary says {m.group(1) if m else None}, tree.n_evaluations={tree.n_evaluations}")
+        per_deme = sum(d.n_evaluations for _, d in tree.all_demes)
+        if m and int(m.group(1)) != per_deme:
+            # the total of the tree's state is the sum of its demes' counters, whatever tree.n_evaluations answers
+            x.violate("C20/summary-total-vs-demes", f"summary says {m.group(1)} evaluations in total, the demes' counters sum to {per_deme}")
         m = re.search(r"^Number of demes: (\d+)", head, re.M)
         if not m or int(m.group(1)) != len(tree.all_demes):
             x.violate("C20/summary-total-demes", f"summary says {m.group(1) if m else None} demes, tree has {len(tree.all_demes)}")
